@@ -29,6 +29,11 @@ CHECKS = {
          "TLC checks GridUsable (boxes enclose every atom sphere and are centred, fine <= coarse, grid counts 32k+1 >= 33, memory split consistent) on every file <= MaxLen lines over atom and header/comment lines for two parameter sets; the real sizing of each file (fixed layout, whitespace layout, header lines removed) and the rendered APBS input are compared with the spec's result and judged by TLC, incl. HeaderLinesIgnored, LayoutIndependent, InputFileMatches; end-to-end runs check that the input names and is sized from the PQR just written.",
          "Coordinates chosen so that the float arithmetic is exact (dyadic) or away from rounding points; cfac >= 1 and fadd >= 0; rendering of PQR lines and parsing of the .in file are harness code; proc-grid/focusing numbers (logarithms) are not modelled.",
          "DESIGN.md 6/C17", ["Psize", "MC_Psize", "PsizeTrace"]),
+ "C08": ("model_checking",
+         "TLA+ spec PqrFormat (formatter, --whitespace re-spacing and token reader on strings): TLC over the product of field shapes; one real Atom per shape through get_pqr_string/print_pqr/read_pqr; TLC trace validation (PqrFormatTrace) of produced text and re-read fields, also for the atom lines of real pipeline runs",
+         "TLC checks on the string-level model that a field wider than its column never corrupts a neighbour (Confined) and that Faithful fails exactly by cutting; every replayed shape's real text and re-read fields must equal the model's (zero drift) and the C08 clauses (fixed columns, plain tokenisation, pdb2pqr's reader) are evaluated by TLC on the observed text; the formatter's width limits are listed as known findings by field.",
+         "Number->text conversion is outside the spec (values are exact decimals); |charge| < 10, radius < 10; thorough replays a covering subset (every value, pairs of width-relevant fields, random points) of the product TLC explores.",
+         "DESIGN.md 6/C08", ["PqrFormat", "PqrFormatTrace"]),
 }
 
 NOT_YET = "check not built yet (build round in progress); planned per DESIGN.md section 6"
